@@ -4,6 +4,7 @@ package main
 
 import (
 	"fmt"
+	"os"
 	"go/types"
 	"sort"
 	"strings"
@@ -223,8 +224,8 @@ func (x *Exec) reflLen(v *Term) *Term {
 	other := tt.UF("reflLen$", x.intSort(64), v)
 	if !x.addrSeen[-other.id-1000000] {
 		x.addrSeen[-other.id-1000000] = true
-		x.addFactRaw(x.iLe(x.GoInt(0), other))
-		x.addFactRaw(x.iLe(other, x.GoInt(1<<40)))
+		x.addPermFact(x.iLe(x.GoInt(0), other))
+		x.addPermFact(x.iLe(other, x.GoInt(1<<40)))
 	}
 	return tt.Ite(tt.Is("vslice", v), x.sLen(tt.Sel("v-l", "vslice", "Slice", v)),
 		tt.Ite(tt.Is("vstr", v), x.strLen(tt.Sel("v-s", "vstr", x.SS(), v)), other))
@@ -362,12 +363,18 @@ func (x *Exec) invokeSplit(fr *Frame, st *State, recv *Term, recvT types.Type, m
 	// restrict to the single-method interface of the call for anonymous interfaces
 	impls := x.implementers(it)
 	tag := x.tagOf(recv)
+	if ct, ok := x.tagIfNonNil(recv); ok {
+		tag = ct // the receiver was just checked to be non-nil
+	} else if os.Getenv("GOVC_DEBUG") != "" {
+		fmt.Fprintf(os.Stderr, "debug: no tag knowledge for receiver %s (guarded entries: %d) pc=%s\n", recv, len(x.guarded[recv.id]), x.curPC)
+	}
 	type branch struct {
 		st  *State
 		val Value
 	}
 	var brs []branch
 	var conds []*Term
+	_, syntactic := intVal(tag)
 	for _, T := range impls {
 		c := tt.Eq(tag, x.tidLit(T))
 		bs := st.clone()
@@ -375,7 +382,27 @@ func (x *Exec) invokeSplit(fr *Frame, st *State, recv *Term, recvT types.Type, m
 		if isFalse(bs.pc) {
 			continue
 		}
+		if !syntactic && len(impls) > 2 && !x.quiet {
+			// semantic pruning: the facts known so far may exclude this dynamic type
+			key := fmt.Sprintf("%d|%d", recv.id, x.prog.tid(T))
+			if x.infeasible == nil {
+				x.infeasible = map[string]bool{}
+			}
+			inf, seen := x.infeasible[key]
+			if !seen {
+				inf = x.quickUnsat(bs.pc)
+				if inf {
+					x.infeasible[key] = true // facts only grow: stays infeasible under the same or a stronger pc
+				}
+			}
+			if inf && x.pcImpliedSyntactically(bs.pc, key) {
+				continue
+			}
+		}
 		conds = append(conds, c)
+		if os.Getenv("GOVC_DEBUG") != "" {
+			fmt.Fprintf(os.Stderr, "debug: invokeSplit %s on %s (terms so far %d)\n", m.Name(), typeName(T), x.tt.n)
+		}
 		fn := x.prog.SSA.LookupMethod(T, m.Pkg(), m.Name())
 		if fn == nil {
 			panic("no method " + m.Name() + " on " + T.String())
@@ -509,6 +536,22 @@ func (x *Exec) isJSON(v *Term) *Term {
 			tt.Eq(tag, x.tidLit(x.lookupType("encoding/json.Number"))),
 			tt.Eq(tag, x.tidLit(types.NewSlice(tAny))), tt.Eq(tag, x.tidLit(types.NewMap(tString, tAny))))
 		x.addFactRaw(tt.Implies(j, shallow))
+		// scalars of the JSON types are JSON values
+		scalar := tt.Or(tt.Is("vnil", v), tt.Eq(tag, x.tidLit(tBool)), tt.Eq(tag, x.tidLit(tFloat64)), tt.Eq(tag, x.tidLit(tString)),
+			tt.Eq(tag, x.tidLit(x.lookupType("encoding/json.Number"))))
+		x.addFactRaw(tt.Implies(scalar, j))
 	}
 	return j
+}
+
+// pcImpliedSyntactically: remember the path condition under which the branch was found infeasible; reuse only under the same pc.
+func (x *Exec) pcImpliedSyntactically(pc *Term, key string) bool {
+	if x.infeasiblePC == nil {
+		x.infeasiblePC = map[string]int{}
+	}
+	if id, ok := x.infeasiblePC[key]; ok {
+		return id == pc.id
+	}
+	x.infeasiblePC[key] = pc.id
+	return true
 }
